@@ -35,6 +35,9 @@ OptionPoints ==
           ri \in {U, R(T_PIPE, 0, 0, ""), R(T_DISCARD, 0, 0, ""), R(T_PARENT, 0, 0, ""), R(0, HFD, 0, ""), R(0, 0, 0, PATHS)},
           sh \in {NoSh, [NoSh EXCEPT !.parent = TRUE], [NoSh EXCEPT !.discard = TRUE]}, inp \in {-1, -2, 0, 2}}
   \cup {Opt(<<U, U, U>>, NoSh, -1, f, a) : f \in BOOLEAN, a \in BOOLEAN}
+  \* out-of-range types on the negative side (an enum value cast from -1, from the smallest int)
+  \cup {Opt([<<U, U, U>> EXCEPT ![s] = R(t, 0, 0, "")], NoSh, -1, FALSE, TRUE) : s \in 1..3, t \in {-1, -2147483647}}
+  \cup {Opt([<<U, U, U>> EXCEPT ![s] = R(-1, 0, 0, PATHS)], NoSh, -1, FALSE, TRUE) : s \in 2..3}
   \* a FILE stream is "given" whatever its descriptor number: also when it sits on descriptor 0
   \cup {Opt([<<U, U, U>> EXCEPT ![s] = R(t, 0, F0, "")], NoSh, -1, FALSE, TRUE) : s \in 1..3, t \in {T_DEFAULT, T_FILE}}
   \cup {Opt(<<U, U, U>>, [NoSh EXCEPT !.file = F0], -1, FALSE, TRUE)}
